@@ -259,9 +259,15 @@ func vcRunC09(t *vcTrial, cfg vc09Cfg) {
 		fail("disconnect_without_connect", "OnDisconnect ran although OnConnect never started")
 	}
 	// peer closed, the user never called Close, OnConnect has run (or none configured) => exactly once, before the close callbacks
-	peerOnly := atomic.LoadInt32(&userClosed) == 0
-	if peerOnly && (cfg.NoOnConnect || nConStart == 1) && nDis != 1 {
-		fail("disconnect_missing", "the peer closed a connection whose OnConnect has run (user never called Close) but OnDisconnect ran %d times", nDis)
+	// "the peer closes a connection" = the poller's hang-up is what closed it (closeBy(poller) won, hook
+	// OnHupAfterCloseBy); a user Close that comes later - inside any callback - changes nothing about
+	// that. Where the user's Close won the race instead, OnDisconnect is not promised.
+	peerWon := vcSeenSince(mark, vpOnHupAfterCloseBy, rec.ID)
+	if peerWon && (cfg.NoOnConnect || nConStart == 1) && nDis != 1 {
+		fail("disconnect_missing", "the peer closed a connection whose OnConnect has run (the poller's hang-up closed it; user Close called too: %v) but OnDisconnect ran %d times", atomic.LoadInt32(&userClosed) != 0, nDis)
+	}
+	if peerWon && atomic.LoadInt32(&userClosed) != 0 {
+		t.Stat("peer_close_then_user_close", 1)
 	}
 	if nDis == 1 && clsFirst >= 0 {
 		// a user Close inside OnDisconnect runs the close callbacks nested in it: then only the start counts
